@@ -113,3 +113,269 @@ def field_order(ctx, r):
             continue
         r.ob(any(x["k"] == "MethodCall" and x["m"] == "struct_pat_fields_in_order" for x in q.walk(a["body"])), f"translate_bytecode.rs:{name}:Struct:order-helper", TB, a["l"],
              f"{name} must take the fields of a struct pattern through struct_pat_fields_in_order", sample=f"{name}: Struct via struct_pat_fields_in_order")
+
+
+PAYLOAD_ENUMS = {"PatVariantData": "abra_core/src/ast.rs", "PatStructFields": "abra_core/src/ast.rs"}
+
+# (function, variant, field, payload variant) -> reason the traversal may leave that child alone
+PAT_SKIP_JUSTIFIED = {
+    ("gather_or_pattern_subtrees", "Or", 0, None): "flattens the right-nested spine of an or-chain: the left alternative is recorded as one alternative, not descended into",
+    ("collect_locals_pat", "Or", 1, None): "both sides of an or-pattern bind the same names; slots are declared from the left side (see slots-from-left above)",
+}
+
+
+def _pat_traversals(ctx):
+    from lib import astmodel as am
+
+    out = []
+    for file in sorted(ctx.syn["files"]):
+        items = ctx.file_items(file)
+        fns = {}
+        for f, _ in q.iter_items(items):
+            if f["k"] == "Fn" and f.get("body") is not None:
+                fns.setdefault(f["name"], f)
+        for name, f in fns.items():
+            pm = [m for e, m in am.principal_matches(f) if e == "PatKind"]
+            if not pm:
+                continue
+            callees = {q.last_seg(n) for _, n, _ in q.calls_in(f["body"])}
+            if name not in callees:
+                continue  # not a recursive traversal
+            family = {name}
+            for g in callees:
+                if g in fns and g != name and any(q.last_seg(n) == name for _, n, _ in q.calls_in(fns[g]["body"])):
+                    family.add(g)
+            out.append((file, f, pm, family))
+    return out
+
+
+def _payload_binders(node, enum_name, pv):
+    """Patterns `Enum::pv(x..)` under node, each with the body its bindings scope over: [(bindings, body)]."""
+    out = []
+
+    def pats_of(p):
+        return [x for x in q.walk(p) if x["k"] == "PTupleStruct" and q.last_seg(x["p"]) == pv and (enum_name in x["p"] or "::" not in x["p"])]
+
+    for x in q.walk(node):
+        if x["k"] == "Arm":
+            for p in pats_of(x["pat"]):
+                out.append(([b for e in p["elems"] for b in q.pat_bindings(e)], x["body"]))
+        elif x["k"] == "If" and x["c"]["k"] == "Let":
+            for p in pats_of(x["c"]["pat"]):
+                out.append(([b for e in p["elems"] for b in q.pat_bindings(e)], x["t"]))
+        elif x["k"] == "Local" and x.get("init") is not None and x.get("else") is not None:
+            for p in pats_of(x["pat"]):
+                out.append(([b for e in p["elems"] for b in q.pat_bindings(e)], node))
+    return out
+
+
+def _helper_unpacks(ctx, file, body, binds, pen, pv):
+    """Is the payload binding passed to (or the receiver of) a helper that has an arm `pen::pv(x)` using x?"""
+    cands = []
+    for x in q.walk(body):
+        if x["k"] == "MethodCall":
+            involved = (x["recv"]["k"] == "Path" and x["recv"]["p"] in binds) or any(q.idents_in(a) & set(binds) for a in x["args"])
+            if involved:
+                cands.append(x["m"])
+        elif x["k"] == "Call" and x["f"]["k"] == "Path" and any(q.idents_in(a) & set(binds) for a in x["args"]):
+            cands.append(q.last_seg(x["f"]["p"]))
+    for hf in (file, PAYLOAD_ENUMS[pen]):
+        for g, _ in q.iter_items(ctx.file_items(hf) or []):
+            if g["k"] == "Fn" and g.get("body") is not None and g["name"] in cands:
+                for a in q.walk(g["body"]):
+                    if a["k"] == "Arm":
+                        for p in q.walk(a["pat"]):
+                            if p["k"] == "PTupleStruct" and q.last_seg(p["p"]) == pv and pen in p["p"]:
+                                bs = [b for e in p["elems"] for b in q.pat_bindings(e)]
+                                if bs and q.idents_in(a["body"]) & set(bs):
+                                    return True
+    return False
+
+
+@rule("PAT-VISIT", ["C14", "C04", "C20", "C12", "C03"], "every recursive traversal of patterns descends into every sub-pattern: both sides of an or-pattern, tuple elements, and the positional and the named form of struct and variant payloads")
+def pat_visit(ctx, r):
+    from lib import astmodel as am
+
+    enums = am.ast_enums(ctx, r)
+    if enums is None:
+        return
+    ast_items = ctx.file_items(am.AST)
+    payload = {}
+    for en in PAYLOAD_ENUMS:
+        e = q.find_enum(ast_items, en)
+        if e is None:
+            r.missing(f"ast.rs:enum {en}", am.AST)
+            return
+        payload[en] = [v["name"] for v in e["variants"]]
+    travs = _pat_traversals(ctx)
+    r.count("recursive pattern traversals", len(travs), 13, "abra_core/src")
+    variants = enums["PatKind"]
+    n = 0
+    for file, f, pms, family in travs:
+        short = file.split("/")[-1]
+        status = {}
+        for m in pms:
+            for arm in m["arms"]:
+                for v in am.arm_variants(arm, "PatKind"):
+                    fields = variants.get(v) or []
+                    subs = am.field_bindings(arm["pat"], v)
+                    for i, (fname, fty, fcats) in enumerate(fields):
+                        if "pat" not in fcats:
+                            continue
+                        sp = subs[i] if subs is not None and i < len(subs) and not any(s["k"] == "PRest" for s in subs) else None
+                        pen = next((en for en in payload if en in fty), None)
+                        if pen is None:
+                            binds = q.pat_bindings(sp) if sp is not None else []
+                            ok = bool(binds) and am.flows_into(arm["body"], binds, lambda nm: nm in family)
+                            status.setdefault((v, i, None, fty), []).append((ok, arm["l"]))
+                            continue
+                        if sp is not None and q.show_pat(sp) == "None":
+                            continue
+                        for pv in payload[pen]:
+                            ok = False
+                            # destructured in the arm pattern itself
+                            cands = []
+                            if sp is not None:
+                                for p in q.walk(sp):
+                                    if p["k"] == "PTupleStruct" and q.last_seg(p["p"]) == pv:
+                                        cands.append(([b for e in p["elems"] for b in q.pat_bindings(e)], arm["body"]))
+                                mentions_other = any(p["k"] == "PTupleStruct" and q.last_seg(p["p"]) in payload[pen] for p in q.walk(sp))
+                                if mentions_other and not cands:
+                                    continue  # this arm is about another payload form
+                            # or matched on inside the body
+                            binds = q.pat_bindings(sp) if sp is not None else []
+                            if binds:
+                                cands += _payload_binders(arm["body"], pen, pv)
+                            for bs, body in cands:
+                                if bs and am.flows_into(body, bs, lambda nm: nm in family):
+                                    ok = True
+                            # or handed, whole, to a helper that takes the payload apart and whose result is traversed
+                            if not ok and binds and am.flows_into(arm["body"], binds, lambda nm: nm in family):
+                                ok = _helper_unpacks(ctx, file, arm["body"], binds, pen, pv)
+                            status.setdefault((v, i, pv, fty), []).append((ok, arm["l"]))
+        for (v, i, pv, fty), sts in sorted(status.items(), key=lambda kv: (kv[0][0], kv[0][1], kv[0][2] or "")):
+            n += 1
+            what = f"{v}.{i}" + (f":{pv}" if pv else "")
+            just = PAT_SKIP_JUSTIFIED.get((f["name"], v, i, pv))
+            if just:
+                r.ob(True, "", file, sts[0][1], "", sample=f"{f['name']}: {what} left alone, justified: {just}")
+                continue
+            ok = any(s for s, _ in sts)
+            r.ob(ok, f"{short}:{f['name']}:{what}:sub-pattern-not-visited", file, sts[0][1],
+                 f"{f['name']} is a recursive traversal of patterns but never descends into the {('`' + pv + '` form of the ') if pv else ''}sub-pattern(s) of PatKind::{v} (field {i}: {fty}): or-alternatives, bindings or literals nested there are invisible to it",
+                 sample=f"{f['name']}: {what} visited")
+    r.count("(traversal, sub-pattern position) pairs", n, 60, "abra_core/src")
+
+
+@rule("USEFUL-JOIN", ["C13"], "results of child rows are joined into their parent row: a write indexed by a property of the loop variable is many-to-one and must accumulate")
+def useful_join(ctx, r):
+    items = ctx.file_items(EXH)
+    if items is None:
+        r.missing(EXH)
+        return
+    n = 0
+    for f, _ in q.iter_items(items):
+        if f["k"] != "Fn" or f.get("body") is None:
+            continue
+        for lp in q.walk(f["body"]):
+            if lp["k"] != "For":
+                continue
+            lvars = set(q.pat_bindings(lp["pat"]))
+            # aliases of `container[loopvar.field]` bound inside the loop
+            alias = {}
+            for x in q.walk(lp["body"]):
+                if x["k"] == "Local" and x.get("init") is not None:
+                    for y in q.walk(x["init"]):
+                        if y["k"] == "Index" and any(z["k"] == "Field" and z["e"]["k"] == "Path" and z["e"]["p"] in lvars for z in q.walk(y["i"])):
+                            for b in q.pat_bindings(x["pat"]):
+                                alias[b] = q.show(y)
+            for x in q.walk(lp["body"]):
+                is_assign = x["k"] == "Assign" or (x["k"] == "Binary" and x["op"].endswith("=") and x["op"] not in ("==", "!=", "<=", ">="))
+                if not is_assign:
+                    continue
+                lhs = x["a"] if "a" in x else x.get("l")
+                if lhs is None or lhs["k"] != "Field":
+                    continue
+                tgt = lhs["e"]
+                via = None
+                if tgt["k"] == "Path" and tgt["p"] in alias:
+                    via = alias[tgt["p"]]
+                elif tgt["k"] == "Index" and any(z["k"] == "Field" and z["e"]["k"] == "Path" and z["e"]["p"] in lvars for z in q.walk(tgt["i"])):
+                    via = q.show(tgt)
+                if via is None:
+                    continue
+                n += 1
+                rhs = x.get("b") or x.get("r")
+                compound = x["k"] == "Binary" and x["op"] in ("|=", "&=", "+=")
+                selfjoin = rhs is not None and q.show(lhs) in q.show(rhs) and any(y["k"] == "Binary" and y["op"] in ("||", "|", "&&", "&") for y in q.walk(rhs))
+                r.ob(compound or selfjoin, f"pat_exhaustiveness.rs:{f['name']}:{lhs['f']}:overwritten-per-child", EXH, x["l"],
+                     f"{f['name']}: `{via}.{lhs['f']}` is written once per child row; several child rows share a parent (or-pattern alternatives, rows kept under several constructors), so a plain assignment keeps only the last child's answer - a reachable arm is reported redundant or the reverse",
+                     sample=f"{f['name']}: {via}.{lhs['f']} accumulated over children")
+    r.count("child-to-parent result writes", n, 1, EXH)
+
+
+def _counter_vars(body):
+    """Variables incremented inside a branch of a match/if on a type (`SolvedType::Void => {} _ => n += 1`, `if ty != Void { n += 1 }`): counts of non-void components."""
+    out = set()
+    for x in q.walk(body):
+        if x["k"] in ("Match", "If"):
+            scr = q.show(x.get("e") or x.get("c"))
+            arms_txt = q.show(x)
+            if "Void" in arms_txt or "Void" in scr:
+                for y in q.walk(x):
+                    if y["k"] == "Binary" and y["op"] == "+=" and y["a"]["k"] == "Path":
+                        out.add(y["a"]["p"])
+    return out
+
+
+@rule("PAYLOAD-REPR", ["C01", "C14"], "whether a variant's payload is wrapped in a struct is decided by the declared number of fields at every site: constructor, pattern comparison, pattern binding and host bindings agree")
+def payload_repr(ctx, r):
+    items = ctx.file_items(TB)
+    if items is None:
+        r.missing(TB)
+        return
+    n = 0
+    # constructor side: the arm that emits both ConstructStruct and ConstructVariant
+    for f, _ in q.iter_items(items):
+        if f["k"] != "Fn" or f.get("body") is None:
+            continue
+        for a in q.walk(f["body"]):
+            if a["k"] != "Arm" or "EnumVariant" not in " ".join(q.pat_heads(a["pat"])):
+                continue
+            txt = q.show(a["body"])
+            emits_struct = [x for x in q.walk(a["body"]) if x["k"] == "Call" and q.show(x["f"]) == "Instr::ConstructStruct"]
+            emits_variant = any(x["k"] in ("Struct", "Call", "Path") and "Instr::ConstructVariant" in q.show(x)[:40] for x in q.walk(a["body"]))
+            if not emits_struct or not emits_variant:
+                continue
+            counters = _counter_vars(a["body"])
+            for e in emits_struct:
+                n += 1
+                conds = [q.show(i["c"]) for i in q.walk(a["body"]) if i["k"] == "If" and any(y is e for y in q.walk(i["t"]))]
+                cond = conds[-1] if conds else "(unconditional)"
+                uses_counter = any(c in q.idents_in(i["c"]) for i in q.walk(a["body"]) if i["k"] == "If" and any(y is e for y in q.walk(i["t"])) for c in counters)
+                by_arity = ".len()" in cond
+                r.ob(by_arity and not uses_counter, f"translate_bytecode.rs:{f['name']}:EnumVariant:wrapping-by-non-void-count", TB, e["l"],
+                     f"{f['name']}: the constructor wraps a variant's payload in a struct under `{cond}`; patterns and host bindings decide by the declared number of fields, so a count that skips void fields ({sorted(counters)}) builds a bare payload that a multi-field pattern then deconstructs as a struct (internal 'expected struct' fault)",
+                     sample=f"{f['name']}: payload wrapped under `{cond}`")
+    # pattern side: the unwrapped case is chosen by the number of sub-patterns
+    for name in ("translate_pat_comparison", "handle_pat_binding"):
+        f = q.find_fn(items, name, impl_ty="Translator")
+        if f is None:
+            r.missing(name, TB)
+            continue
+        for a in q.walk(f["body"]):
+            if a["k"] == "Arm" and any(p["k"] == "PTupleStruct" and q.last_seg(p["p"]) == "Named" and "PatVariantData" in p["p"] for p in q.walk(a["pat"])):
+                ifs = [i for i in q.walk(a["body"]) if i["k"] == "If" and any(x["k"] in ("MethodCall", "Call") and "DeconstructStruct" in q.show(x) or (x["k"] == "MethodCall" and x["m"] == "translate_product_pat_comparison") for x in q.walk(i.get("e") or {"k": "Lit"}))]
+                for i in ifs[:1]:
+                    n += 1
+                    c = q.show(i["c"]).replace(" ", "")
+                    r.ob(".len()==1" in c, f"translate_bytecode.rs:{name}:Variant:Named:unwrapped-case", TB, i["l"], f"{name}: the bare-payload case of a named-field variant pattern must be chosen by the declared number of fields (`{c}`)", sample=f"{name}: bare payload iff `{c}`")
+    bc = ctx.file_items("abra_core/src/bindings_common.rs")
+    g = q.find_fn(bc, "name_of_variant_data_ty") if bc else None
+    if g is None:
+        r.missing("bindings_common.rs:name_of_variant_data_ty", "abra_core/src/bindings_common.rs")
+    else:
+        n += 1
+        ok = any(i["k"] == "If" and q.show(i["c"]).replace(" ", "").strip("()") in ("elems.len()==1",) for i in q.walk(g["body"]))
+        r.ob(ok, "bindings_common.rs:name_of_variant_data_ty:unwrapped-case", "abra_core/src/bindings_common.rs", g["l"], "host bindings must use the bare payload type exactly for one declared field", sample="host bindings: bare payload iff elems.len() == 1")
+    r.count("payload representation decision sites", n, 4, TB)
